@@ -123,6 +123,10 @@ EXTRA5 = {'C01': ' Round 8: blanks behind the announced length; tabs beside the 
 for _k, _v in EXTRA5.items():
     C[_k]["text"] += _v
 
+EXTRA6 = {'C03': ' Round 9: comma lists in one Content-Length field.', 'C04': ' Round 9: two bare LFs in a row inside a value.', 'C06': ' Round 9: bytes behind the compressed stream inside a cut frame; a transient error in the gzip header with a caller that reads on (found F23).', 'C07': ' Round 9: write_all of an empty slice in custom bodies.', 'C09': ' Round 9: redirects between an https and an http origin, both ways, against the TLS lab.', 'C11': ' Round 9: the same environment decisions in the build against the rustls backend (second binary).', 'C12': ' Round 9: status numerals that are not three digits; the request max_headers applied to the reply head.', 'C13': ' Round 9: a connect that stands late (six silent addresses ahead) followed by a stall.', 'C17': ' Round 9: the usual long connect timeout under a far deadline.', 'C18': ' Round 9: reader patterns (1, 1, then 70000-byte reads; reads into empty buffers in between).'}
+for _k, _v in EXTRA6.items():
+    C[_k]["text"] += _v
+
 PENDING = {
 }
 all_ids = [f"C{i:02d}" for i in range(1, 20)]
